@@ -76,6 +76,8 @@ type Exec struct {
 	di      int
 	trace   []uint64
 	alts    [][]uint64
+	altModels []map[string]uint64
+	prefixModel map[string]uint64
 	nondet  []NondetEntry
 	nvar    int
 	reached map[string]bool
@@ -99,12 +101,15 @@ type Exec struct {
 	obsNames []string
 	obsTerms []*Node
 	crcSeen  []crcRec
+	pending  []pendingAssert
 	inInit   bool
 
 	asserts   []AssertOutcome
 	nAssertOK int
 	nQueries  int
 	lastModel map[string]uint64
+	pendModel map[string]uint64
+	pendFor   *Node
 	curFrame  *Frame
 }
 
@@ -124,27 +129,55 @@ func (e *Exec) where() string {
 
 // ---------- decisions ----------
 
+func (e *Exec) evalModel(c *Node) (bool, bool) {
+	if e.lastModel == nil {
+		return false, false
+	}
+	v, ok := e.tb.EvalDefault(c, e.lastModel)
+	return v == 1, ok
+}
+
 func (e *Exec) assume(c *Node) {
 	if c.IsTrue() {
 		return
 	}
 	e.pc = append(e.pc, c)
-	e.lastModel = nil
+	if sat, ok := e.evalModel(c); ok && sat {
+		return // the cached model of the path condition still holds
+	}
+	if e.pendFor == c && e.pendModel != nil {
+		e.lastModel = e.pendModel
+	} else {
+		e.lastModel = nil
+	}
+	e.pendFor, e.pendModel = nil, nil
 }
 
+// feasible decides pc ∧ extra. A cached model of pc that already satisfies
+// extra answers without a query; a sat answer caches its model.
 func (e *Exec) feasible(extra *Node) Verdict {
 	if extra.IsFalse() {
 		return Unsat
 	}
-	if e.lastModel != nil {
-		if v, ok := e.tb.Eval(extra, e.lastModel, map[*Node]uint64{}); ok && v == 1 {
-			return Sat
-		}
+	if sat, ok := e.evalModel(extra); ok && sat {
+		return Sat
 	}
 	roots := append(append([]*Node{}, e.pc...), extra)
 	q := e.tb.Query(roots)
+	vars := e.tb.FreeVars(roots)
+	names := make([]string, len(vars))
+	for i, v := range vars {
+		names[i] = v.name
+	}
 	e.nQueries++
-	v, _, _ := e.solver.Check(q, e.eng.feasTimeoutMs, nil)
+	v, vals, _ := e.solver.Check(q, e.eng.feasTimeoutMs, names)
+	if v == Sat && len(vals) == len(names) {
+		m := make(map[string]uint64, len(names))
+		for i, n := range names {
+			m[n] = vals[i]
+		}
+		e.pendFor, e.pendModel = extra, m
+	}
 	return v
 }
 
@@ -162,19 +195,35 @@ func (e *Exec) branch(c *Node) bool {
 		} else {
 			e.assume(e.tb.BNot(c))
 		}
+		e.prefixDone()
 		return d == 1
 	}
 	e.di++
 	ft := e.feasible(c)
+	var mT map[string]uint64
+	if e.pendFor == c {
+		mT = e.pendModel
+	}
 	ff := Sat
+	var mF map[string]uint64
 	if ft != Unsat {
-		ff = e.feasible(e.tb.BNot(c))
+		nc := e.tb.BNot(c)
+		ff = e.feasible(nc)
+		if e.pendFor == nc {
+			mF = e.pendModel
+		} else if ff == Sat {
+			mF = e.lastModel // answered from the cached model
+		}
 	}
 	switch {
 	case ft != Unsat && ff != Unsat:
 		alt := append(append([]uint64{}, e.trace...), 0)
 		e.alts = append(e.alts, alt)
+		e.altModels = append(e.altModels, mF)
 		e.trace = append(e.trace, 1)
+		if mT != nil {
+			e.pendFor, e.pendModel = c, mT
+		}
 		e.assume(c)
 		return true
 	case ft != Unsat:
@@ -188,6 +237,14 @@ func (e *Exec) branch(c *Node) bool {
 	}
 }
 
+// prefixDone: when the last recorded decision has been replayed, the model
+// that made this alternative feasible becomes the cached model of the path.
+func (e *Exec) prefixDone() {
+	if e.di == len(e.prefix) && e.prefixModel != nil {
+		e.lastModel = e.prefixModel
+	}
+}
+
 // choice forks over n concrete alternatives (harness-directed case split).
 func (e *Exec) choice(n int) int {
 	if n <= 1 {
@@ -197,12 +254,14 @@ func (e *Exec) choice(n int) int {
 		d := e.prefix[e.di]
 		e.di++
 		e.trace = append(e.trace, d)
+		e.prefixDone()
 		return int(d)
 	}
 	e.di++
 	for k := n - 1; k >= 1; k-- {
 		alt := append(append([]uint64{}, e.trace...), uint64(k))
 		e.alts = append(e.alts, alt)
+		e.altModels = append(e.altModels, e.lastModel)
 	}
 	e.trace = append(e.trace, 0)
 	return 0
@@ -267,12 +326,14 @@ func (e *Exec) runHarness(fn *ssa.Function) (end pathEnd) {
 		if r := recover(); r != nil {
 			if pe, ok := r.(pathEnd); ok {
 				end = pe
+				e.flushAsserts()
 				return
 			}
 			panic(r)
 		}
 	}()
 	e.call(fn, nil, nil, nil)
+	e.flushAsserts()
 	return pathEnd{EndOK, ""}
 }
 
